@@ -11,7 +11,7 @@ package lua
 // mtEvent(v, e): metatable(v)[e] by a raw access, nil when there is no (table) metatable      (manual: "metatable(op)[event]", rawget)
 //@ define mtEvent(ls *LState, v LValue, e string) LValue = ite(rawmt(ls, v) != LNil && isTab(rawmt(ls, v)), sget(tab(rawmt(ls, v)), e), LNil)
 // no table stores a Go nil (part of the table representation invariant, C09), stated for all tables
-//@ define tabsValid() bool = (forall t *LTable, s string :: t != nil && has(t.strdict, s) ==> valOK(t.strdict[s])) && (forall t *LTable, k LValue :: t != nil && has(t.dict, k) ==> valOK(t.dict[k])) && (forall t *LTable, i int :: t != nil && 0 <= i && i < len(t.array) ==> valOK(t.array[i]))
+//@ define tabsValid() bool = (forall t *LTable, s string :: t != nil && has(t.strdict, s) ==> valOK(t.strdict[s])) && (forall t *LTable, k LValue :: t != nil && has(t.dict, k) ==> valOK(t.dict[k])) && (forall t *LTable, i int :: t != nil && 0 <= i && i < len(t.array) ==> valOK(t.array[i])) && (forall t *LTable :: t != nil ==> arrid(t.array) == 0 || arrid(t.array) != arrid(t.keys))
 //@ define MetaOK(ls *LState) bool = ls != nil && ls.G != nil && mtsValid(ls) && tabsValid()
 
 //@ func (*LState).metatable [C04]
@@ -97,16 +97,21 @@ package lua
 //@ loop 1 invariant 0 <= i && valOK(curobj) && (i == 0 ==> curobj == obj) && ncalls() == old(ncalls())
 //@ loop 1 invariant i > 0 ==> old((!isTab(obj) || view(tab(obj), key) == LNil) && mtEvent(ls, obj, "__index") != LNil && !isFn(mtEvent(ls, obj, "__index")))
 
-//@ trusted (*LState).getFieldString [C01 C04 C07 C10]
+// HostKept: what re-entrant Lua code cannot change for the calling host activation (assumed): its private value stack
+// [base, top). The representation invariants of all tables/metatables (TabsOK) are system invariants: every mutator is
+// proved to preserve them (C09), so they are assumed to hold whenever control returns from Lua code.
+//@ define HostKept(ls *LState) bool = top(ls) == old(top(ls)) && base(ls) == old(base(ls)) && (forall k int :: old(base(ls)) <= k && k < old(top(ls)) ==> ls.reg.array[k] == old(ls.reg.array[k])) && (old(Inv_gfn(ls)) ==> Inv_gfn(ls)) && (ls.G != nil ==> TabsOK(ls)) && (old(regsValid(ls)) ==> regsValid(ls)) && ls.G.Registry == old(ls.G.Registry) && (forall k int :: base(ls) <= k && k < top(ls) ==> valOK(ls.reg.array[k])) && (forall t *LTable :: t != nil ==> arrid(t.array) != arrid(ls.reg.array))
+
+//@ trusted (*LState).getFieldString [C01 C04 C07 C10 C20]
 //@ assume getFieldString/setField/setFieldString: same structure as getField (verified above); assumed here until verified
 //@ logged
-//@ ensures  Disc(ls) && result != nil
+//@ ensures  Disc(ls) && result != nil && valOK(result) && HostKept(ls)
 //@ modifies everything
 //@ trusted (*LState).setField [C01 C04 C07 C10]
 //@ logged
 //@ ensures  Disc(ls)
 //@ modifies everything
-//@ trusted (*LState).setFieldString [C01 C04 C07 C10]
+//@ trusted (*LState).setFieldString [C01 C04 C07 C10 C20]
 //@ logged
-//@ ensures  Disc(ls)
+//@ ensures  Disc(ls) && HostKept(ls)
 //@ modifies everything
